@@ -354,7 +354,7 @@ class Fn:
             self.eat("(")
             inner = self.pattern()
             self.eat(")")
-            return f"some {inner[0]}", inner[1]
+            return (f"some ({inner[0]})" if " " in inner[0] else f"some {inner[0]}"), inner[1]
         parts = [name]
         while self.peek() == "::":
             self.eat()
@@ -372,7 +372,11 @@ class Fn:
                 self.eat("{")
                 names = []
                 while self.peek() != "}":
-                    names.append(self.idents.get(self.peek(), self.peek())); self.eat()
+                    fld = self.eat()
+                    if self.peek() == ":":                # `field: binding`
+                        self.eat()
+                        fld = self.eat()
+                    names.append(self.idents.get(fld, fld))
                     if self.peek() == ",":
                         self.eat()
                 self.eat("}")
@@ -740,7 +744,28 @@ def _patch_cfg(file, lean_name, is_async):
         calls={"Ok": lambda a: "OK" if a == ["()"] else (_ for _ in ()).throw(TranslateError("Ok(..) with a value"))},
         verbatim=vb, paths=_PATCH_PATHS, methods={"len": lambda r, a: f"{r}.length"})
 
+
+_OPS_PATHS = {"DeltaOp::Copy": "Op.copy", "DeltaOp::Literal": "Op.literal", "u64::from": "id"}
+_OPS_COMMON = dict(group="delta", file="src/delta.rs", calls={}, paths=_OPS_PATHS, epilogue=["return ops"],
+                   subst=[("self.ops.last_mut()", "ops_last")], idents={"ops_last": "ops.getLast?"},
+                   methods={"checked_add": lambda r, a: f"(checkedAdd32 {r} {a[0]})", "is_empty": lambda r, a: f"{r}.isEmpty"})
+
 FUNCS = [
+    dict(_OPS_COMMON, name="push_copy", sig="fn push_copy(&mut self, offset: u64, len: u32)",
+         lean="def pushCopyFwd (ops0 : List Op) (offset len : Nat) : List Op := Id.run do\n  -- world: `self.ops`, oldest first\n  let mut ops := ops0",
+         verbatim=[('debug_assert!(len > 0, "copy operation must have non-zero length");', ""),
+                   ("*prev_len = new_len; return;", "ops := ops.dropLast ++ [Op.copy prev_offset new_len]\nreturn ops"),
+                   ("self.ops.push(DeltaOp::copy(offset, len));", "ops := ops ++ [Op.copy offset len]")]),
+    dict(_OPS_COMMON, name="push_literal", sig="fn push_literal(&mut self, data: &[u8])",
+         lean="def pushLiteralFwd (ops0 : List Op) (data : List Nat) : List Op := Id.run do\n  let mut ops := ops0",
+         verbatim=[("return;", "return ops"),
+                   ("prev_data.extend_from_slice(data); return;", "ops := ops.dropLast ++ [Op.literal (prev_data ++ data)]\nreturn ops"),
+                   ("self.ops.push(DeltaOp::literal_from_slice(data));", "ops := ops ++ [Op.literal data]")]),
+    dict(_OPS_COMMON, name="push_literal_byte", sig="fn push_literal_byte(&mut self, byte: u8)",
+         lean="def pushLiteralByteFwd (ops0 : List Op) (byte : Nat) : List Op := Id.run do\n  let mut ops := ops0",
+         verbatim=[("prev_data.push(byte); return;", "ops := ops.dropLast ++ [Op.literal (prev_data ++ [byte])]\nreturn ops"),
+                   ("self.ops.push(DeltaOp::literal(vec![byte]));", "ops := ops ++ [Op.literal [byte]]")]),
+
     _patch_cfg("src/sync.rs", "patchSync", False),
     _patch_cfg("src/async_sync.rs", "patchAsync", True),
     dict(group="delta", file="src/delta.rs", name="validate", sig="fn validate(&self) -> Result<()>",
